@@ -411,7 +411,12 @@ func init() {
 func c14Judge(c *mon.Ctx, in *c14Script) {
 	c.Eval(1)
 	s := []byte(in.Script)
-	scr := bscript.NewFromBytes(append([]byte{}, s...))
+	scr := bscript.NewFromBytes(mon.Exact(s)) // capacity == length: an access behind the end cannot go unnoticed
+	defer func() { // every query is a read: the script is afterwards what it was
+		if !bytes.Equal(*scr, s) {
+			c.Violationf("C14:inspection-changed-the-script", "after the inspection queries the script is %x, it was %x", []byte(*scr), s)
+		}
+	}()
 	toks, tr := refcodec.Tokenize(s)
 	undecodable := tr >= 0
 	tpl := refcodec.Classify(s)
